@@ -9,6 +9,7 @@ D=/verif/seeded/$ID-$V
 mkdir -p $D
 if [ -d /tmp/seed/out/$ID/$V ]; then cp /tmp/seed/out/$ID/$V/* $D/; fi
 if [ -d /tmp/seed/out2/$ID/$V ]; then cp /tmp/seed/out2/$ID/$V/* $D/; fi
+if [ -d /tmp/seed/out3/$ID/$V ]; then cp /tmp/seed/out3/$ID/$V/* $D/; fi
 TAG=seed-$ID-$V
 WT=/tmp/$TAG
 git -C /repo worktree remove --force $WT 2>/dev/null
